@@ -180,7 +180,7 @@ class TlcResult:
     def coverage(self):
         """Per-action (taken, generated) from -coverage output: {actionname: distinct}"""
         cov = {}
-        for m in re.finditer(r"^<(\w+) line \d+, col \d+ to line \d+, col \d+ of module (\w+)>: (\d+):(\d+)", self.out, re.M):
+        for m in re.finditer(r"^<(\w+) line \d+, col \d+ to line \d+, col \d+ of module (\w+)(?: \([\d ]+\))?>: (\d+):(\d+)", self.out, re.M):
             cov[m.group(1)] = cov.get(m.group(1), 0) + int(m.group(4))
         return cov
 
@@ -349,6 +349,14 @@ class Check:
             cov.get("states"), cov.get("traces_validated_against_impl"), cov.get("evaluations"),
             cov.get("distinct_nontrivial")), flush=True)
         return 1 if self.violations else 0
+
+
+def require_ops(edges, ops, what):
+    """vacuity guard: every listed action label must occur on some explored transition"""
+    seen = {e["a"].get("op") for e in edges}
+    for op in ops:
+        if op not in seen:
+            raise ToolError("vacuous model run (%s): action %s never taken" % (what, op))
 
 
 def load_findings():
